@@ -209,7 +209,8 @@ def classify(meta, run, unit_file):
                                            (info['fn'], ', '.join(new_rec_sites[info['fn']]), info['clause'])})
                 continue
             if info['fn'] in reshaped:
-                tool_scoped.append({'tags': info.get('tags', []), 'clause': info['clause'], 'needs_input': True,
+                tool_scoped.append({'tags': info.get('tags', []), 'clause': info['clause'], 'needs_input': True, 'fn': info['fn'],
+                                    'rendered': d.get('rendered', '')[:3000], 'message': msg,
                                     'msg': 'fn %s has a different control-flow shape than on the unchanged tree (the proof hints were written for the old shape): the failed obligation %s is reported only if a concrete failing input confirms it' %
                                            (info['fn'], info['clause'])})
                 continue
